@@ -278,7 +278,7 @@ class Program:
                         self.inlined.setdefault(rel, {})["names_restored"] = ["%s%s -> %s" % (sc + "." if sc else "", a, b) for sc, a, b in restored]
                     n, names = inline_module(mod.tree)
                     if n:
-                        self.inlined[rel] = {"call_sites": n, "helpers": names}
+                        self.inlined.setdefault(rel, {}).update({"call_sites": n, "helpers": names})
                     if rel not in ("anytree/node/nodemixin.py", "anytree/node/lightnodemixin.py"):
                         k = propagate_aliases(mod.tree, _PROPERTY_NAMES)
                         if k:
